@@ -1,5 +1,5 @@
 """C05 - per-connection order, whole frames, gap-free sequence numbers."""
-from vlib.mgen import CLOSE, CONNECT, DISCONNECT, FAULT, OPEN, PUB, READY, SETNAME, STEP, SUB, Profile
+from vlib.mgen import CLOSE, CONNECT, DISCONNECT, FAULT, OPEN, PUB, READY, SETNAME, SLOW, STEP, SUB, Profile
 from vlib.simcheck import SimCheck
 
 RULE = ("Hypothesis-generated histories (profile 'ordering': bursts from several publishers, payload sizes 0/small/65535, "
@@ -9,14 +9,15 @@ RULE = ("Hypothesis-generated histories (profile 'ordering': bursts from several
         "the manager wrote parses into whole frames with nothing left over after every round; msg_count is 1,2,3,... per connection "
         "over all frame kinds; per receiver the messages of one sender arrive in send order; any two receivers see their common "
         "messages in the same relative order (manager-originated messages with a payload - log records at debug/info level, notices - "
-        "included, identified by their bytes). Plus long runs: one connection receives 66000 (thorough 140000) frames in each header "
+        "included, identified by their bytes; profile 'ordering-notices': three observers of all types, two of them logger modules, while "
+        "subscribers are frequently outside the writable snapshot - a message and the FAILED_MESSAGE notices about it in the same order everywhere). Plus long runs: one connection receives 66000 (thorough 140000) frames in each header "
         "layout and msg_count must still count 1..n. Non-trivial = a connection that received >=3 frames of >=2 kinds, or two receivers "
         "sharing >=2 messages from >=2 senders; distinct = (kinds multiset class, count class) / (common count, sender count).")
 
 ORDERING = Profile(
     name="ordering",
     oracles={"order", "framing", "routing"},
-    weights={STEP: 8, PUB: 16, SUB: 6, CONNECT: 2, OPEN: 1, DISCONNECT: 1, CLOSE: 1, READY: 1, SETNAME: 1},
+    weights={STEP: 8, PUB: 16, SUB: 6, CONNECT: 2, OPEN: 1, DISCONNECT: 1, CLOSE: 1, READY: 1, SETNAME: 1, SLOW: 2},
     types=[1234, 5000, 8, 80, 33, 32, 30, 31, 0, 2, 9999, 10000, -1, 42, 45, 44],
     sizes=[0, 8, 65535, 1, 64, 4096, 7, 100000, 65536],  # the manager accepts payloads up to 1 MiB
     max_pending_pubs=12,
@@ -39,6 +40,30 @@ ORDERING_FAULTS = Profile(
     p_logger=4,
     dts=[0.0],
     max_conns=8,
+)
+
+
+# notices next to the messages they are about: three observers of everything (two of them logger modules, which the manager
+# waits for when they are not writable) while other subscribers are frequently outside the writable snapshot - every receiver
+# must see a message and the FAILED_MESSAGE notices it caused in the same relative order
+_ALLT = 0x7FFFFFFF
+_OBSERVERS = []
+for _c, (_id, _lg) in enumerate([(90, 1), (91, 1), (92, 0)]):
+    _OBSERVERS += [{"op": "open"}, {"op": "connect", "c": _c, "ver": "v2v1", "id": _id, "logger": _lg, "daemon": 0, "multi": 0,
+                                    "name": f"obs{_c}", "pid": 900 + _c},
+                   {"op": "sub", "c": _c, "kind": "SUBSCRIBE", "type": _ALLT}]
+ORDERING_NOTICES = Profile(
+    name="ordering-notices",
+    oracles={"order", "framing", "routing"},
+    weights={STEP: 10, PUB: 16, SUB: 7, CONNECT: 3, OPEN: 2, READY: 1, SLOW: 3},
+    types=[1234, 5000, 8, 33, 0, 9999],
+    sizes=[0, 8, 64, 1, 7, 4096],
+    max_pending_pubs=10,
+    writable_all_bias=1,
+    p_logger=3,
+    dts=[0.0],
+    max_conns=8,
+    setup_ops=_OBSERVERS,
 )
 
 
@@ -207,9 +232,10 @@ def _replay_extra(tr):
 
 
 CHECK = SimCheck(
-    "C05", [ORDERING, ORDERING, ORDERING_FAULTS],
+    "C05", [ORDERING, ORDERING_NOTICES, ORDERING_FAULTS, ORDERING],
     {"ordering": [{"timecode": False, "timing": True, "log": "error"}, {"timecode": True, "timing": True, "log": "info"},
                   {"timecode": False, "timing": False, "log": "silent"}, {"timecode": False, "timing": True, "log": "debug"}],
+     "ordering-notices": [{"timecode": False, "timing": False, "log": "silent"}, {"timecode": True, "timing": False, "log": "error"}],
      "ordering-faults": [{"timecode": False, "timing": True, "log": "silent"}, {"timecode": True, "timing": False, "log": "silent"}]},
     RULE, ["per-sender order uses the harness' global publish counter, which increases in send order on each connection"],
     quick=(700, 60), thorough=(15000, 160), nontrivial=nontrivial, extra=extra,
